@@ -341,7 +341,11 @@ def run(main):
     """Wrap a check's main(): convert tool failures into exit 2."""
     try:
         rc = main()
-    except Inconclusive as e:
+    except Exception as e:  # noqa: BLE001 - any failure of the machinery itself is inconclusive, never a verdict
+        if not isinstance(e, Inconclusive):
+            import traceback
+            traceback.print_exc()
+            e = "%s: %s" % (type(e).__name__, e)
         print("INCONCLUSIVE: %s" % e)
         # leave nothing behind: scratch directories of this process
         rundir = os.path.join(VERIF, ".run")
